@@ -858,6 +858,7 @@ func c08RawSchedExplore(t *testing.T, c *ev.Collector, k c08RawSchedCase) {
 	}
 	e.OnExec = func(x *bsched.Exec) { c.Outcome(c08RawSchedJudge(c, k, x)) }
 	e.Explore()
+	c.AddExtra("replay_deviations_recovered", int64(len(e.Recovered)))
 	for _, d := range e.Divergences {
 		c.HarnessError("replay divergence in %s: %s", k.key(), d)
 	}
